@@ -46,7 +46,9 @@ def run(ctx):
         lib.run_driver(exe, ["rt", t1, 640 if q else 8000, 0 if q else 1], env=env, timeout=900)
         t2 = os.path.join(ctx.work, "truncations.ndjson")
         lib.run_driver(exe, ["trunc", t2, 0 if q else 1], env=env, timeout=900)
-        traces = [t1, t2]
+        t0 = os.path.join(ctx.work, "geometry-family.ndjson")
+        lib.run_driver(exe, ["geo", t0, 0], env=env, timeout=900)
+        traces = [t0, t1, t2]
         if not q:
             # a second seeded family, and a pass with the ASan/UBSan-instrumented STIR libraries: a sanitizer
             # report inside write_to_file / read_from_file is a violation (memory safety of the IO path).
